@@ -124,6 +124,9 @@ func (f *Fixture) echoBehaviour(step string, dataID int64, in map[string]any) (s
 	return "success", out
 }
 
+// SignalPanicValue is the value of "v" for which the fixture's signal handler panics.
+const SignalPanicValue = 999999
+
 // NewFixture builds a fresh plugin schema (fresh per-run state).
 func NewFixture() *Fixture {
 	f := &Fixture{Gate: NewGate()}
@@ -145,6 +148,9 @@ func NewFixture() *Fixture {
 	record := schema.NewCallableSignal[*sigData, map[string]any]("record", sigScope(), nil,
 		func(_ context.Context, d *sigData, in map[string]any) {
 			v, _ := in["v"].(int64)
+			if v == SignalPanicValue {
+				panic("signal handler panics")
+			}
 			f.mu.Lock()
 			f.Signals = append(f.Signals, SigRec{DataID: d.id, V: v})
 			f.mu.Unlock()
